@@ -336,6 +336,9 @@ static std::string outpath_for(const Plan& p, const std::string& root) {
         case 4: return "out/noext";
         case 5: return "out/s0000000001.c";
         case 6: return "out//dd/../dd/x.y.c";
+        case 8: return "./noext2";                 // no extension, but a dot earlier in the path
+        case 9: return "out.d/module";
+        case 10: return "out/../out/mod";
         default: return "out/a.c";
     }
 }
@@ -361,7 +364,7 @@ static Plan make_plan(const std::string& prop, uint64_t root, uint64_t idx, bool
     else if (g.below(6) == 0) p.args.push_back({"-d", "arrays"});
     if (!ce.ref.empty() && g.below(3) == 0) { p.ref = g.below(5) == 0 ? ce.wasm : ce.ref; p.changed = ce.changed; }
     if (prop == "C20" ? g.below(2) == 0 : g.below(5) == 0) p.args.push_back({"-c"});
-    p.shape = (int)g.below(8);
+    p.shape = (int)g.below(11);
     if (prop != "C20" && p.shape == 5) p.shape = 7;   // an output named like an implementation file collides with it: only meaningful for C20
     p.input_in_outdir = g.below(5) == 0;
     // decoys
